@@ -146,9 +146,18 @@ def cases(th):
     choices = Exec(th.index, th).explore(lambda e: e.call_function(th.index.func("dep_logic.tags.platform:Platform.choices"), [ClassRef(P)], inline=True))[0][0].value
     choices = list(choices)
     str_f, _ = th.index.find_method(P, "__str__")
+    variants = []
     for name in choices:
-        X, Y = z3.Int("X"), z3.Int("Y")
-        arg = tag(name.replace("X_Y", "{}_{}"), X, Y) if "X_Y" in name else name
+        variants.append((name, None))
+        if "X_Y" in name:
+            # concrete instances with one to five digits per part: the regular expression is run by the real `re` on them (what A-REGEX generalises from)
+            variants += [(name, xy) for xy in ((7, 45), (123, 6), (0, 0), (10, 12345), (2026, 100))]
+    for name, xy in variants:
+        X, Y = (z3.Int("X"), z3.Int("Y")) if xy is None else (z3.IntVal(xy[0]), z3.IntVal(xy[1]))
+        if xy is None:
+            arg = tag(name.replace("X_Y", "{}_{}"), X, Y) if "X_Y" in name else name
+        else:
+            arg = name.replace("X_Y", f"{xy[0]}_{xy[1]}")
         pre = [X >= 0, Y >= 0]
 
         def thunk(ex, arg=arg):
@@ -172,4 +181,4 @@ def cases(th):
                 cl.append(("C18.platform.version", z3.And(os_.fields["major"] == ma, os_.fields["minor"] == mi)))
             cl.append(("C18.platform.parse-of-str-is-identity", same if z3.is_expr(same) else z3.BoolVal(bool(same))))
             return cl
-        yield {"name": name, "pre": pre, "thunk": thunk, "post": post, "args": ()}
+        yield {"name": name if xy is None else name.replace("X_Y", f"{xy[0]}_{xy[1]}"), "pre": pre, "thunk": thunk, "post": post, "args": ()}
